@@ -1,6 +1,7 @@
 CONSTANTS
-  MaxId = 8
+  MaxId = 16
   ZeroIncBug = FALSE
+  OpenCleanupBug = FALSE
   DeadlineBug = "none"
   Want = {"C25_BlockReturns", "C25_NoHeadOfLine", "C25_BacklogRejects", "C25_NoHang"}
 SPECIFICATION TSpec
